@@ -222,6 +222,28 @@ func (x *Exec) appendOp(st *State, c *ssa.Call) SV {
 	if isStringType(c.Call.Args[1].Type()) {
 		srcBase = "S:byte"
 	}
+	if x.fc != nil && (len(x.fc.AppendSites) > 0 || len(x.fc.GhostSteps) > 0) && len(st.frames) == 1 && elemKeyBase(et) == "E:byte" {
+		env := x.contractEnv(st, nil, st.entry)
+		x.bindLocals(env, st.top(), nil)
+		src := t
+		if src.Ty == nil {
+			src.Ty = c.Call.Args[1].Type()
+		}
+		env.vars["$src"] = src
+		env.vars["$dst"] = s
+		n := x.appendOrdinal(c)
+		for _, cl := range x.fc.AppendSites {
+			x.assert(st, fmt.Sprintf("site:append#%d:%s", n, cl.Label), env.evalBool(cl.Expr), cl.Text, c.Pos())
+		}
+		for _, g := range x.fc.GhostSteps {
+			if _, ok := st.ghost[g.Name]; !ok {
+				x.fail("ghost update of undeclared ghost %s", g.Name)
+			}
+			nv := intSV(env.evalInt(g.Expr), types.Typ[types.Int])
+			st.ghost[g.Name] = nv
+			env.vars[g.Name] = nv
+		}
+	}
 	return x.appendCore(st, s, t, et, srcBase, c.Type())
 }
 
@@ -342,7 +364,7 @@ func (x *Exec) applyContract(st *State, c *ssa.Call, callee *ssa.Function, fc *F
 	for i, p := range callee.Params {
 		vars[p.Name()] = args[i]
 	}
-	env := &CEnv{x: x, vars: vars, cur: st.heap, qn: &x.qn, wmCur: st.wm, wmOld: st.wm}
+	env := &CEnv{x: x, vars: vars, cur: st.heap, qn: &x.qn, wmCur: st.wm, wmOld: st.wm, st: st}
 	n := x.callOrdinal(c)
 	for _, r := range fc.Requires {
 		x.assert(st, fmt.Sprintf("pre@%s#%d:%s", fc.Key, n, r.Label), env.evalBool(r.Expr), "precondition of "+fc.Key+": "+r.Text, c.Pos())
@@ -356,7 +378,7 @@ func (x *Exec) applyContract(st *State, c *ssa.Call, callee *ssa.Function, fc *F
 	for i := 0; i < sig.Results().Len(); i++ {
 		results = append(results, x.freshOf(st, sig.Results().At(i).Type(), fmt.Sprintf("%s.ret%d", callee.Name(), i)))
 	}
-	env2 := &CEnv{x: x, vars: map[string]SV{}, cur: st.heap, old: oldHeap, qn: &x.qn, wmOld: oldWM, wmCur: st.wm}
+	env2 := &CEnv{x: x, vars: map[string]SV{}, cur: st.heap, old: oldHeap, qn: &x.qn, wmOld: oldWM, wmCur: st.wm, st: st}
 	for k, v := range vars {
 		env2.vars[k] = v
 	}
@@ -370,6 +392,14 @@ func (x *Exec) applyContract(st *State, c *ssa.Call, callee *ssa.Function, fc *F
 	if len(results) == 1 {
 		env2.vars["result"] = results[0]
 	}
+	// the callee's ghost variables are existentially quantified for the caller
+	for _, g := range fc.GhostDecls {
+		if g.Array {
+			env2.vars[g.Name] = SV{K: KSeq, Arr: Var(x.freshName("ghostarr."+g.Name), SArrI), Off: IntC(0), Len: MaxLenTerm, Cap: MaxLenTerm}
+		} else {
+			env2.vars[g.Name] = intSV(Var(x.freshName("ghost."+g.Name), SInt), types.Typ[types.Int])
+		}
+	}
 	for _, e := range fc.Ensures {
 		st.assume(env2.evalBool(e.Expr))
 	}
@@ -380,6 +410,26 @@ func (x *Exec) applyContract(st *State, c *ssa.Call, callee *ssa.Function, fc *F
 		return results[0]
 	}
 	return SV{K: KTuple, Fields: results, Ty: c.Type()}
+}
+
+// appendOrdinal numbers the appends to byte slices inside the function in block order.
+func (x *Exec) appendOrdinal(c *ssa.Call) int {
+	n := 0
+	for _, b := range c.Parent().Blocks {
+		for _, in := range b.Instrs {
+			if cc, ok := in.(*ssa.Call); ok {
+				if cc == c {
+					return n
+				}
+				if bi, ok := cc.Common().Value.(*ssa.Builtin); ok && bi.Name() == "append" {
+					if et := elemTypeOf(cc.Type()); et != nil && elemKeyBase(et) == "E:byte" {
+						n++
+					}
+				}
+			}
+		}
+	}
+	return n
 }
 
 // callOrdinal numbers the calls to the same callee inside the caller in block order.
@@ -420,6 +470,12 @@ func parseModifies(items []string) ([]modItem, error) {
 		switch {
 		case it == "alloc":
 			out = append(out, modItem{kind: "alloc", text: it})
+		case strings.HasPrefix(it, "map "):
+			base, err := parseCExpr(strings.TrimSpace(strings.TrimPrefix(it, "map ")))
+			if err != nil {
+				return nil, err
+			}
+			out = append(out, modItem{kind: "map", base: base, text: it})
 		case strings.HasPrefix(it, "heap "):
 			out = append(out, modItem{kind: "heap", key: strings.TrimSpace(strings.TrimPrefix(it, "heap ")), text: it})
 		case strings.HasSuffix(it, "]"):
@@ -493,6 +549,9 @@ func (x *Exec) modLicenses(fc *FuncContract, fn *ssa.Function, vars map[string]S
 		return lic[k]
 	}
 	allocs := false
+	var localMods []*Loc
+	x.lastLocalMods = nil
+	defer func() { x.lastLocalMods = localMods }()
 	env := &CEnv{x: x, vars: vars, cur: pre, qn: &x.qn}
 	for _, it := range items {
 		switch it.kind {
@@ -502,6 +561,17 @@ func (x *Exec) modLicenses(fc *FuncContract, fn *ssa.Function, vars map[string]S
 			get(it.key).whole = true
 		case "field", "obj":
 			p := env.eval(it.base)
+			if p.K == KRef && p.Loc != nil && p.Loc.Ref != nil && it.kind == "obj" {
+				// interior pointer &obj.f: the licensed cell is that field of obj
+				for _, k := range x.keysOfObject(p.Loc.RefTy, p.Loc.Path) {
+					get(k).refs = append(get(k).refs, p.Loc.Ref)
+				}
+				continue
+			}
+			if p.K == KRef && p.Loc != nil && p.Loc.Alloc != nil && it.kind == "obj" {
+				localMods = append(localMods, p.Loc)
+				continue
+			}
 			if p.K != KRef || p.T == nil {
 				x.fail("modifies %s: base is not a heap pointer", it.text)
 			}
@@ -532,6 +602,16 @@ func (x *Exec) modLicenses(fc *FuncContract, fn *ssa.Function, vars map[string]S
 			for _, k := range x.keysOfObject(pt.Elem(), path) {
 				get(k).refs = append(get(k).refs, p.T)
 			}
+		case "map":
+			mv := env.eval(it.base)
+			if mv.K != KRef || mv.T == nil || mapTypeOf(mv.Ty) == nil {
+				x.fail("modifies %s: not a map", it.text)
+			}
+			x.registerMapKeys(mv.Ty)
+			huge := BigC(bigPow2(200))
+			for _, k := range mapHeapKeys(mv.Ty) {
+				get(k).spans = append(get(k).spans, licSpan{id: mv.T, lo: Neg(huge), hi: huge})
+			}
 		case "elems":
 			s := env.eval(it.base)
 			if s.K != KSeq {
@@ -557,6 +637,11 @@ func (x *Exec) modLicenses(fc *FuncContract, fn *ssa.Function, vars map[string]S
 
 func (x *Exec) havocModifies(st *State, callee *ssa.Function, fc *FuncContract, vars map[string]SV, pre HeapView) {
 	lic, allocs := x.modLicenses(fc, callee, vars, pre)
+	for _, l := range x.lastLocalMods {
+		// the callee may assign the caller's local variable through the pointer
+		t := typeAt(l.Alloc.Type().(*types.Pointer).Elem(), l.Path)
+		x.store(st, l, x.freshOf(st, t, "via."+l.Alloc.Comment))
+	}
 	preWM := st.wm
 	if allocs {
 		nw := Var(x.freshName("WM"), SInt)
